@@ -32,6 +32,10 @@ CHECKS["C07"] = node("§8 C07 (partial claim), §5 E-NODE long-epoch family", "d
    "PARTIAL: for every epoch transition reached by simulated histories (300-1800 block epochs, clock regimes from 1 ms to days per block, uncle rates 0-20%, halvings) the node's next-epoch length, hash-rate estimate, difficulty/compact target and rewards must equal an independent exact-arithmetic evaluation, stay within the consensus bounds and the x2 dampening, epoch fields must be gap-free, per-epoch reward sums must equal scheduled issuance, and compact/target/difficulty conversions must agree with an independent implementation. Not decided: the same over all u64/U256 inputs and all compact encodings, and PoW acceptance - those are pure functions without schedule, clock or fault, outside this technique.")
 CHECKS["C14"] = node("§8 C14, §5 E-NODE twins", "deterministic simulation run on twin nodes that differ only in cache configuration (store read caches default/0/1/mixed, verification cache warm or emptied before every verify step); differential comparison of every verdict and query answer, plus failing-witness twins of cached transactions",
    "Each seeded scenario is executed by four twin nodes; all block verdicts, BlockExt records (minus received_at) and the answers of the chain queries for every block ever delivered - including invalid blocks that were stored and deleted - must be identical. Scenarios plant an otherwise identical sibling of a verified block whose committed transaction carries a failing witness under the same tx hash and make that branch heavier, so a cache keyed by anything less than the witness hash, or a skipped script run on a hit, attaches an invalid block. Found (as C01/C14) the stale StoreCache after delete_block, fixed in c00ffd0.")
+CHECKS["C10"] = dict(engine="simnode", category="exploration", design_ref="§8 C10, §5 E-NODE with the freezer on + E-CRASH",
+   technique="deterministic simulation of block-import histories with freeze passes at arbitrary points on the real node (real ckb-freezer files), every chain query checked against the reference model after every pass; freezer-on/off twin runs; process death at every write and freezer fail point inside every pass, with seeded loss of the un-fsynced freezer tail",
+   text="Seeded histories over toy epochs (forks at heights that later get frozen, uncles, proposals, extensions, orphans, duplicates, restarts) with explicit freeze passes; after every pass / restart / at the end every main-chain block and each of its parts, every transaction with its location, ancestor lookups and the full live-cell state must read exactly as the model built them, Freezer::number is monotone, at or below the last block of epoch(tip)-2, and side-chain blocks at frozen heights answer None or themselves. Twin runs with the freezer off must give identical answers. For sampled histories every crash point inside every pass is enumerated (RocksDB writes of the wipe-out before/after, freezer write-head / write-index sites, with and without losing the un-fsynced tail). Five genuine defects found and fixed (8b5c6e5, c24557f, ba9dd17, bc0a2f4, b0dc427).",
+   note=NODE_NOTE + " Envelope: reorganisations reaching below the freezer's height (> 2 epochs deep) are not generated (the freezer cannot undo them by design).")
 CHECKS["C08"] = dict(engine="simnode", category="fault_enumeration", design_ref="§8 C08, §5 E-CRASH",
    technique="deterministic simulation with process death injected at every durable write of a seeded import history (restart = new OS process on the same directories), checked against the replay model",
    text="For each seeded block-import history a fault-free run counts the durable writes W; then EVERY write index 1..W x {before, after} is tried as a process death (libc::_exit in the ckb-db write hook), plus seeded double crashes during recovery. After each restart: reopen succeeds, the store equals the model's replay of the tip it reports, work never decreases, stored-unverified blocks are picked up, the proposal view matches; after the remaining deliveries the node reaches the heaviest valid chain and the never-crashed state. Fault enumeration is right because the crash-point space of one history is finite (W writes); histories are sampled.",
